@@ -11,6 +11,10 @@ FnRefFlatRow     do_reference_flat's column code per row: log2 = the flat level,
                                                                   (C05_source_flat_row, C05_source_flat_row_fasta)
 FnRefBedRow      bed2probes' column code per row: gene (the file's or "-"), log2 = 0.0, spread = 0.0
                                                                   (C05_source_bed_row_spread, C05_source_bed_row_gene)
+FnRefSexesInfer  infer_sexes' loop, one iteration (dict entry `sexes[cnarr.sample_id]` carried as an optional boolean)
+                                                                              (C05_source_infer_sexes)
+FnRefSexesMerge  do_reference's loop over the antitarget calls, one iteration   (C05_source_sexes_merge_step, C05_source_sexes_inferred)
+FnRefSexesGiven  do_reference's loop for a given sex, one iteration             (C05_source_sexes_given)
 
 Mutations tried on a scratch copy (tools/mut_fn.sh; KILLED = the named Proofs file no longer compiles, REFUSED = the
 translator refuses the module, which the check reports as a broken tie):
@@ -20,9 +24,16 @@ translator refuses the module, which the check reports as a broken tie):
                   KILLED ; `if fa_fname:` -> `if not fa_fname:` KILLED
   FnRefBedRow     `table["spread"] = 0.0` -> `1.0` KILLED ; `"gene" in regions.data` -> `not in` REFUSED (the keyed input is
                   gone) ; `table["log2"] = 0.0` -> `-1.0` KILLED
+  FnRefSexesMerge `if t_is_xx is None` -> `is not None` KILLED ; `t_is_xx != a_is_xx` -> `==` KILLED ; the override storing
+                  t_is_xx REFUSED (branches of different types B / OB)
+  FnRefSexesInfer `if is_xx is not None` -> `is None` KILLED ; `if cnarr:` -> `if not cnarr:` KILLED ; `= is_xx` -> `= ~is_xx`
+                  REFUSED (~ on a non-boolean)
+  FnRefSexesGiven `= female_samples` -> `= not female_samples` KILLED
 """
 
 _LSB = ['filenames', 'fa_fname', 'is_haploid_x', 'diploid_parx_genome', 'sexes', 'skip_low', 'fix_gc', 'fix_edge', 'fix_rmask']
+_DOREF = ['target_fnames', 'antitarget_fnames', 'fa_fname', 'is_haploid_x_reference', 'diploid_parx_genome', 'female_samples',
+          'do_gc', 'do_edge', 'do_rmask', 'do_cluster', 'min_cluster_size']
 
 MODULES = {
     'FnRefColumns': ('cnvlib/reference.py', [
@@ -49,6 +60,33 @@ MODULES = {
                      ('get_fasta_stats(ref_probes, fa_fname)[1]', 'Q', 'fasta_rmask')],
              returns=["ref_probes['log2']", "ref_probes['depth']", "ref_probes['gc']", "ref_probes['rmask']"],
              ret=['Q', 'Q', 'OQ', 'OQ']),
+    ]),
+    # the `sexes` dictionary (sample id -> is_xx).  One iteration each of the three loops that fill it; the dict entry stored
+    # into (`sexes[<key>] = v`, a string key) is the carried variable, an optional boolean (None: no entry):
+    #   infer_sexes           for fname in cnn_fnames: cnarr = read_cna(fname); if cnarr: is_xx = cnarr.guess_xx(..); if is_xx
+    #                         is not None: sexes[cnarr.sample_id] = is_xx          (read_cna(fname) is read by its truth value)
+    #   do_reference (merge)  for sid, a_is_xx in a_sexes.items(): the antitarget call completes / overrides the target call
+    #   do_reference (given)  for fname in target_fnames: sexes[read_cna(fname).sample_id] = female_samples
+    'FnRefSexesInfer': ('cnvlib/reference.py', [
+        dict(name='infer_sexes', coq='fn_infer_step', py_params=['cnn_fnames', 'is_haploid_x', 'diploid_parx_genome'],
+             loop=dict(first='for fname in cnn_fnames'), carried=[('sexes[cnarr.sample_id]', 'OB')],
+             params=[('read_cna(fname)', 'B', 'has_rows'), ('cnarr.sample_id', 'S', 'sample_id'),
+                     ('cnarr.guess_xx(is_haploid_x, diploid_parx_genome)', 'OB', 'guessed'),
+                     ('sexes[cnarr.sample_id]', 'OB', 'entry')],
+             ret='OB'),
+    ]),
+    'FnRefSexesMerge': ('cnvlib/reference.py', [
+        dict(name='do_reference', coq='fn_merge_step', py_params=_DOREF,
+             loop=dict(first='for sid, a_is_xx in a_sexes.items()'), carried=[('sexes[sid]', 'OB')],
+             params=[('sid', 'S'), ('a_is_xx', 'OB'), ('sexes.get(sid)', 'OB', 'target_call'), ('sexes[sid]', 'OB', 'entry')],
+             ret='OB'),
+    ]),
+    'FnRefSexesGiven': ('cnvlib/reference.py', [
+        dict(name='do_reference', coq='fn_given_step', py_params=_DOREF,
+             loop=dict(first='for fname in target_fnames'), carried=[('sexes[read_cna(fname).sample_id]', 'OB')],
+             params=[('read_cna(fname).sample_id', 'S', 'sample_id'), ('female_samples', 'B'),
+                     ('sexes[read_cna(fname).sample_id]', 'OB', 'entry')],
+             ret='OB'),
     ]),
     # bed2probes, the column code per row: the gene name (the file's, or "-"), log2 = 0.0, spread = 0.0
     'FnRefBedRow': ('cnvlib/reference.py', [
